@@ -32,6 +32,12 @@ type override struct {
 	WantErr bool
 	// Inert: the override is not expected to change behaviour on any input (empty / ignored config).
 	Inert bool
+	// EmptyColl: the override holds an empty list for an option whose catalogue value is a non-empty list. The
+	// documentation does not say whether that clears the option or leaves the catalogue's list in place, so only
+	// locality is checked and the observed reading is recorded.
+	EmptyColl bool
+	// Coll: size of the overriding collection(s) relative to the catalogue's (smaller / equal / larger / empty / mixed), for the counters
+	Coll string
 }
 
 type input struct {
@@ -56,6 +62,10 @@ type mechSpec struct {
 	Cfg       M
 	Overrides []override
 	Inputs    []input
+	// MaxSteps bounds the number of objects each goroutine of the concurrent phase visits (0: all of them); the
+	// goroutines start at different objects, so every object is still executed by several of them. Such mechanisms are
+	// also executed with a selection of their inputs only after the concurrent phase (maxInputsOfWideSpecs).
+	MaxSteps int
 }
 
 func deepCopy(v any) any {
@@ -197,11 +207,12 @@ func catalogue(s *servers, keyStore string, now time.Time) []*mechSpec {
 	}
 	ignored := []override{{Name: "ignored", Cfg: M{"whatever": "x"}, Equiv: true, Inert: true}, {Name: "empty", Cfg: M{}, Equiv: true, Inert: true}}
 
-	return []*mechSpec{
+	specs := []*mechSpec{
 		// ---------------- authenticators ----------------
 		{Kind: kAuthn, ID: "anon1", Type: "anonymous", Label: "anonymous", Cfg: M{"subject": "proto-subject"},
-			Overrides: []override{{Name: "subject", Cfg: M{"subject": "rule-subject"}, Equiv: true}, {Name: "subject2", Cfg: M{"subject": "rule-subject-2"}, Equiv: true}, {Name: "empty", Cfg: M{}, Equiv: true, Inert: true}},
-			Inputs:    []input{{Name: "get"}, {Name: "post", Method: "POST", Path: "/z"}}},
+			Overrides: []override{{Name: "subject", Cfg: M{"subject": "rule-subject"}, Equiv: true}, {Name: "subject2", Cfg: M{"subject": "rule-subject-2"}, Equiv: true}, {Name: "empty", Cfg: M{}, Equiv: true, Inert: true},
+				{Name: "subject-empty", Cfg: M{"subject": ""}, Equiv: true}},
+			Inputs: []input{{Name: "get"}, {Name: "post", Method: "POST", Path: "/z"}}},
 		{Kind: kAuthn, ID: "anon2", Type: "anonymous", Label: "anonymous", Cfg: nil,
 			Overrides: []override{{Name: "subject", Cfg: M{"subject": "rule-subject"}, Equiv: true}},
 			Inputs:    []input{{Name: "get"}}},
@@ -340,6 +351,7 @@ func catalogue(s *servers, keyStore string, now time.Time) []*mechSpec {
 				{Name: "ttl", Cfg: M{"cache_ttl": "2s"}, Equiv: true},
 				{Name: "ttl0", Cfg: M{"cache_ttl": "0s"}, Equiv: true},
 				{Name: "value-a", Cfg: M{"values": M{"a": "rule-a"}}, Equiv: true},
+				{Name: "values-more-shared", Coll: "larger", Cfg: M{"values": M{"a": "more-a", "c": "more-c", "d": "more-d"}}, Equiv: true},
 				{Name: "value-c", Cfg: M{"values": M{"c": "rule-c"}, "payload": `{"user":"{{ .Subject.ID }}","c":"{{ .Values.c }}","a":"{{ .Values.a }}"}`}, Equiv: true},
 				{Name: "all", Cfg: M{"payload": `{"user":"{{ .Subject.ID }}","all":"{{ .Values.a }}{{ .Values.b }}"}`,
 					"expressions": L{M{"expression": "Payload.echo.user != 'bob'", "message": "bob"}}, "forward_response_headers_to_upstream": L{"X-Authz-B", "X-Authz-A"},
@@ -367,6 +379,7 @@ func catalogue(s *servers, keyStore string, now time.Time) []*mechSpec {
 				{Name: "ttl0", Cfg: M{"cache_ttl": "0s"}, Equiv: true},
 				{Name: "continue", Cfg: M{"continue_pipeline_on_error": true}, Equiv: true},
 				{Name: "value-a", Cfg: M{"values": M{"a": "rule-a"}}, Equiv: true},
+				{Name: "values-more-shared", Coll: "larger", Cfg: M{"values": M{"a": "more-a", "b": "more-b"}}, Equiv: true},
 				{Name: "all", Cfg: M{"payload": `{"u":"{{ .Subject.ID }}","b":"{{ .Values.b }}"}`, "forward_headers": L{"X-Fwd-2", "X-Fwd-1"}, "forward_cookies": L{"c2"},
 					"cache_ttl": "2s", "continue_pipeline_on_error": true, "values": M{"b": "rule-b"}}, Equiv: true},
 				{Name: "empty", Cfg: M{}, Equiv: true, Inert: true},
@@ -378,6 +391,8 @@ func catalogue(s *servers, keyStore string, now time.Time) []*mechSpec {
 			Overrides: []override{
 				{Name: "same-keys", Cfg: M{"headers": M{"X-User": "rule-{{ .Subject.ID }}", "X-Method": "rule"}}, Equiv: true},
 				{Name: "other-key", Cfg: M{"headers": M{"X-Other": "{{ .Subject.ID }}"}}}, // replace vs merge is not specified: locality only
+				{Name: "fewer-keys", Coll: "smaller", Cfg: M{"headers": M{"X-Method": "fewer-{{ .Request.Method }}"}}},
+				{Name: "more-keys", Coll: "larger", Cfg: M{"headers": M{"X-User": "more-{{ .Subject.ID }}", "X-Method": "more", "X-Other": "{{ .Subject.ID }}"}}, Equiv: true},
 				{Name: "empty", Cfg: M{}, Equiv: true, Inert: true},
 			},
 			Inputs: reqInputs[:3]},
@@ -394,6 +409,8 @@ func catalogue(s *servers, keyStore string, now time.Time) []*mechSpec {
 			Overrides: []override{
 				{Name: "same-keys", Cfg: M{"cookies": M{"user": "rule-{{ .Subject.ID }}", "m": "rule"}}, Equiv: true},
 				{Name: "other-key", Cfg: M{"cookies": M{"other": "{{ .Subject.ID }}"}}},
+				{Name: "fewer-keys", Coll: "smaller", Cfg: M{"cookies": M{"m": "fewer-{{ .Request.Method }}"}}},
+				{Name: "more-keys", Coll: "larger", Cfg: M{"cookies": M{"user": "more-{{ .Subject.ID }}", "m": "more", "other": "{{ .Subject.ID }}"}}, Equiv: true},
 				{Name: "empty", Cfg: M{}, Equiv: true, Inert: true},
 			},
 			Inputs: reqInputs[:3]},
@@ -421,6 +438,11 @@ func catalogue(s *servers, keyStore string, now time.Time) []*mechSpec {
 				{Name: "ttl0", Cfg: M{"cache_ttl": "0s"}, Equiv: true}, // the documented way to switch caching off for one rule
 				{Name: "header", Cfg: M{"header": M{"name": "X-Other-Auth", "scheme": "Other"}}, Equiv: true},
 				{Name: "all", Cfg: M{"scopes": L{"s4", "s5"}, "cache_ttl": "1s", "header": M{"name": "X-All-Auth", "scheme": "All"}}, Equiv: true},
+				{Name: "scopes-fewer-shared", Coll: "smaller", Cfg: M{"scopes": L{"s2"}}, Equiv: true},
+				{Name: "scopes-more-shared", Coll: "larger", Cfg: M{"scopes": L{"s2", "s1", "s3"}}, Equiv: true},
+				{Name: "scopes-more-new", Coll: "larger", Cfg: M{"scopes": L{"s3", "s4", "s5"}}, Equiv: true},
+				{Name: "scopes-empty", Coll: "empty", Cfg: M{"scopes": L{}}, EmptyColl: true},
+				{Name: "header-name-only", Cfg: M{"header": M{"name": "X-Name-Only-Auth"}}, Equiv: true},
 				{Name: "empty", Cfg: M{}, Equiv: true, Inert: true},
 			},
 			Inputs: reqInputs[:2]},
@@ -445,7 +467,9 @@ func catalogue(s *servers, keyStore string, now time.Time) []*mechSpec {
 		{Kind: kEH, ID: "ehredir", Type: "redirect", Label: "redirect", Cfg: M{"to": "http://login.test/?origin={{ .Request.URL | urlenc }}&m={{ .Request.Method }}", "code": 303},
 			Overrides: []override{{Name: "empty", Cfg: M{}, Equiv: true, Inert: true}, {Name: "rejected", Cfg: M{"code": 301}, WantErr: true}}, Inputs: ehInputs},
 		{Kind: kEH, ID: "ehwww", Type: "www_authenticate", Label: "www_authenticate", Cfg: M{"realm": "proto-realm"},
-			Overrides: []override{{Name: "realm", Cfg: M{"realm": "rule-realm"}, Equiv: true}, {Name: "realm2", Cfg: M{"realm": "rule-realm-2"}, Equiv: true}, {Name: "empty", Cfg: M{}, Equiv: true, Inert: true}},
-			Inputs:    ehInputs},
+			Overrides: []override{{Name: "realm", Cfg: M{"realm": "rule-realm"}, Equiv: true}, {Name: "realm2", Cfg: M{"realm": "rule-realm-2"}, Equiv: true}, {Name: "empty", Cfg: M{}, Equiv: true, Inert: true},
+				{Name: "realm-empty", Cfg: M{"realm": ""}, Equiv: true}},
+			Inputs: ehInputs},
 	}
+	return append(specs, collectionSpecs(s, jwtInputs, opaque)...)
 }
